@@ -235,7 +235,10 @@ IsEmptyAfterDecls(i) == prog[i].k = "empty" /\ i > 1 /\ prog[i - 1].k = "decl"
 SApp(op, i) ==
   CASE op = "dup_empty_between_funcs" -> IsEmptyBetweenFuncs(i)
     [] op = "no_empty_between_funcs" -> IsEmptyBetweenFuncs(i) /\ prog[i + 1].k \in {"funchead", "comment"}
-    [] op = "empty_in_body" -> prog[i].k = "stmt" /\ i > 1 /\ prog[i - 1].k = "stmt"
+    (* before any line of a function body except the first statement after the declarations' empty line *)
+    [] op = "empty_in_body" -> prog[i].k \in {"stmt", "ctrl", "lbrace", "rbrace"} /\ i > 1
+                               /\ prog[i - 1].k \in {"stmt", "ctrl", "lbrace", "rbrace"} /\ InBody(i)
+                               /\ ~(prog[i].k = "lbrace" /\ LeadTabs(prog[i].items) = 0)
     [] op \in {"no_empty_after_decls", "space_on_empty"} -> IsEmptyAfterDecls(i)
     [] op = "empty_at_file_start" -> i = 1
     [] op = "empty_at_eof" -> i = Len(prog)
